@@ -5,6 +5,10 @@ Streams
                −(n+2)…n+2 for lengths ≤ 6, random pairs (also fractional and far-out indices) for longer texts
   text-len, text-chars, text-split   the same texts; separators are mostly pieces of the text, also empty
   textrun      a sample of the above through one-line programs (member/method dispatch of the evaluator)
+  text-methods 替换 匹配 匹配开头 匹配结尾 去除空格 转小写-英文 转大写-英文 拼接 格式化 转换数值 (and 取样 / 分隔 with ill-typed arguments):
+               the real method (`tm`) and a one-line program (`tmrun`) against the EVALUATOR model (`builtinMethod` of
+               Model/Interp.lean over Model/TextMethods.lean, bytes) and the spec (Spec/Sem.lean over Spec/TextMethods.lean,
+               characters); `unicode-tables`: the model's caseless ranges and white-space set against Go's unicode tables
   fmt          templates from a grammar (80 % well-formed) × argument lists × doubles × precisions
   mod          the % dispatch on arbitrary operand pairs (number % number, text % list, anything else)
 
@@ -18,6 +22,11 @@ from decimal import Decimal
 RULE = ("text: texts over a 22-character alphabet (1-, 2-, 3-, 4-byte code points, combining marks, U+FFFD, range borders); "
         "all index pairs in -(n+2)..n+2 for every generated text of length <= 6, random/fractional/far-out pairs for longer ones; "
         "non-trivial = the text has a multi-byte character and at least two characters. "
+        "text-methods: 替换 (patterns cut from the text, empty, overlapping), 匹配 / 匹配开头 / 匹配结尾 (prefixes, suffixes, pieces, near misses), 去除空格 "
+        "(every White_Space character and look-alikes that are not), 转小写-英文 / 转大写-英文 (letters, their neighbours in the code table, caseless and "
+        "cased non-English characters), 拼接, 格式化 ({#k} for k around the argument count, damaged placeholders, values holding placeholders), 转换数值 "
+        "(numerals in every spelling, at the range borders, damaged, the special spellings of strconv), each with 4-8 % ill-typed or miscounted "
+        "arguments, directly and through one-line programs; textprog: whole programs chaining these members over variables, inputs and literals. "
         "fmt: grammar-generated templates (literal runs, {} and {#directive} placeholders, 20 % damaged by a random edit), "
         "argument lists matching in number 90 % of the time, numbers from a boundary pool (0, -0, 0.5, 1e21, 1e-7, 123456.789, "
         "2^53, 1e308, 5e-324, +-inf, nan, halves that need rounding) and random doubles, precisions 0..20, 400, the limit "
@@ -494,6 +503,204 @@ def run_text(ctx):
     ctx.streams.append({'stream': 'texthist', 'cases': len(cases), 'rewritten': rewritten})
 
 
+# ---- the other text methods ------------------------------------------------------------------------
+
+SPACES = [0x20, 0x20, 0x9, 0xA, 0xD, 0xB, 0xC, 0x3000, 0xA0, 0x85, 0x2003, 0x200A, 0x1680, 0x2028, 0x2029, 0x202F, 0x205F]
+NEAR_SPACES = [0x200B, 0xFEFF, 0x180E, 0x1C, 0x1F, 0x8, 0xE, 0x2060, 0x84, 0x86, 0x9F, 0xA1, 0x1FFF, 0x200C, 0x3001]
+# no character with a case mapping outside ASCII (the model says `unmodelled`, the spec `unspecified` there)
+PLAIN = [0x61, 0x62, 0x7A, 0x41, 0x42, 0x5A, 0x40, 0x5B, 0x60, 0x7B, 0x30, 0x2C, 0x20, 0x4F60, 0x597D, 0xFF0C, 0x1F600, 0x301,
+         0x7FF, 0x800, 0xFFFD, 0x10000, 0x10FFFF, 0x200D, 0x80, 0xB4, 0x2B0, 0xA63F, 0xFF20, 0xFF5B, 0x2125]
+CASED = [0xE9, 0xC9, 0x3A3, 0x3C3, 0x416, 0xFF21, 0xFF41, 0x131, 0x17F, 0x212A, 0xDF, 0xB5, 0x345, 0x1E943, 0x10400, 0x24B6]
+NUMERALS = ['0', '1', '12', '-3', '+4', '2.5', '.5', '5.', '-0', '007', '1e3', '1E3', '1e+3', '2.5e-3', '1e308', '1e309', '9' * 308, '9' * 309,
+            '0.' + '0' * 400 + '1', '1e-400', '1e400', '-1e400', '0e999', '1e9999', '1e10000', '1e99999999999', '1' + '0' * 30, '179769313486231570' + '0' * 291,
+            '179769313486231580' + '0' * 291, '4.9e-324', '2.4e-324', '1.7976931348623157e308', '1.7976931348623159e308']
+ODD_NUMERALS = ['', '+', '-', '.', 'e', 'e5', '1e', '1e+', '1e-', '1.2.3', '1..2', '--1', '+-1', '1-', '1 ', ' 1', '1e5x', '1x', 'x1', '１２', '1,5', '1e5.5', '1ee5',
+                'inf', 'Inf', '+inf', '-INF', 'infinity', '-Infinity', 'infinit', 'info', 'nan', 'NaN', '+nan', '-nan', 'nano', 'n', 'i', 'in',
+                '0x10', '0X1p4', '0x1p-2', '0x', '0x1', '-0x1p1', '1_0', '1_000.5', '_1', '1_', '1__0', '1e1_0', '0_1', '1*^3', '1*10^3', '2.5*^-2', '1*^', '*^3',
+                '1*^3*^2', '1*10^3*10^2', '1*^3*10^2', '甲*^乙', '1*10^', '1*1', '1*^+3', '6.02*10^23', '1*10^400', '1*^309']
+
+
+def canon_tm(g):
+    """Go answers as the spec can say them: which error is not the spec's business"""
+    import re
+    return re.sub(r'^err [a-z]+ \d+', 'err', g)
+
+
+def gen_plain(rng, n, cased=0.0):
+    return [rng.choice(CASED) if rng.random() < cased else rng.choice(PLAIN) for _ in range(n)]
+
+
+def tm_cases(rng, n):
+    out = []
+    S = lambda t: 's' + cps(t)
+    def piece(t):
+        if not t:
+            return []
+        a = rng.randrange(len(t))
+        return t[a:a + rng.randint(1, 3)]
+    def bad_arg():
+        return rng.choice(['n3ff0000000000000', 'b1', 'z', 'nnan'])
+    for _ in range(n):
+        w = rng.choice(['replace', 'replace', 'match', 'prefix', 'suffix', 'trim', 'trim', 'lower', 'upper', 'join', 'format', 'format',
+                        'tonum', 'tonum', 'tonum', 'slice', 'split'])
+        r = rng.random()
+        t = gen_text(rng, rng.randint(0, 12)) if r < 0.35 else gen_plain(rng, rng.randint(0, 12))
+        if w == 'replace':
+            if rng.random() < 0.3:
+                # few distinct characters: overlapping and adjacent occurrences
+                al = rng.sample(PLAIN, 2)
+                t = [rng.choice(al) for _ in range(rng.randint(0, 10))]
+            k = rng.random()
+            old = [] if k < 0.15 else (piece(t) if k < 0.8 else gen_plain(rng, rng.randint(1, 2)))
+            k = rng.random()
+            new = [] if k < 0.2 else (list(old) if k < 0.3 else (old + old if k < 0.4 else gen_plain(rng, rng.randint(1, 3))))
+            args = [S(old), S(new)]
+            k = rng.random()
+            if k < 0.04:
+                args[rng.randrange(2)] = bad_arg()
+            elif k < 0.08:
+                args = args[:rng.choice([0, 1])] if rng.random() < 0.5 else args + [S([0x61])]
+            out.append('replace %s %s' % (cps(t), ' '.join(args)))
+        elif w in ('match', 'prefix', 'suffix'):
+            k = rng.random()
+            if k < 0.1:
+                u = []
+            elif k < 0.35:
+                u = t[:rng.randint(0, len(t))]
+            elif k < 0.6:
+                u = t[rng.randint(0, len(t)):]
+            elif k < 0.8:
+                u = piece(t)
+            elif k < 0.9:
+                u = t + gen_plain(rng, 1)
+            else:
+                u = gen_plain(rng, rng.randint(1, 3))
+            if rng.random() < 0.15 and u:
+                u = list(u)
+                u[rng.randrange(len(u))] = rng.choice(PLAIN)
+            args = [S(u)]
+            k = rng.random()
+            if k < 0.04:
+                args = [bad_arg()]
+            elif k < 0.08:
+                args = [] if rng.random() < 0.5 else args + [S([])]
+            out.append('%s %s %s' % (w, cps(t), ' '.join(args)))
+        elif w == 'trim':
+            sp = lambda m: [rng.choice(SPACES if rng.random() < 0.8 else NEAR_SPACES) for _ in range(rng.randint(0, m))]
+            mid = t[:6]
+            if mid and rng.random() < 0.5:
+                k = rng.randrange(len(mid))
+                mid = mid[:k] + sp(2) + mid[k:]
+            t = sp(3) + mid + sp(3)
+            extra = [S([0x20])] if rng.random() < 0.05 else []
+            out.append('trim %s %s' % (cps(t), ' '.join(extra)))
+        elif w in ('lower', 'upper'):
+            letters = [rng.choice([0x41, 0x5A, 0x61, 0x7A, 0x4D, 0x6D, 0x40, 0x5B, 0x60, 0x7B]) for _ in range(rng.randint(0, 5))]
+            t = gen_plain(rng, rng.randint(0, 6), cased=0.0 if rng.random() < 0.85 else 0.3) + letters
+            rng.shuffle(t)
+            out.append('%s %s' % (w, cps(t)))
+        elif w == 'join':
+            args = [S(gen_plain(rng, rng.randint(0, 3))) for _ in range(rng.randint(0, 4))]
+            if args and rng.random() < 0.1:
+                args[rng.randrange(len(args))] = bad_arg()
+            out.append('join %s %s' % (cps(t), ' '.join(args)))
+        elif w == 'format':
+            nargs = rng.randint(0, 12)
+            vals = []
+            for _ in range(nargs):
+                k = rng.random()
+                vals.append([0x7B, 0x23, 0x30 + rng.randint(0, 9), 0x7D] if k < 0.15 else gen_plain(rng, rng.randint(0, 3)))
+            tpl = []
+            for _ in range(rng.randint(0, 6)):
+                k = rng.random()
+                if k < 0.55:
+                    tpl += [ord(c) for c in '{#%d}' % rng.randint(0, nargs + 2)]
+                elif k < 0.75:
+                    tpl += [ord(c) for c in rng.choice(['{#', '{#}', '{#01}', '{#1', '#1}', '{1}', '{#1}}', '{{#1}', '{#１}', '{#-1}', '{#+1}', '{# 1}', '{#1 }', '{#10}', '{#11}', '{#1}{#1}'])]
+                else:
+                    tpl += gen_plain(rng, rng.randint(1, 3))
+            args = [S(v) for v in vals]
+            if args and rng.random() < 0.06:
+                args[rng.randrange(len(args))] = bad_arg()
+            out.append('format %s %s' % (cps(tpl), ' '.join(args)))
+        elif w == 'tonum':
+            k = rng.random()
+            if k < 0.3:
+                txt = rng.choice(NUMERALS)
+            elif k < 0.6:
+                txt = rng.choice(ODD_NUMERALS)
+            else:
+                sign = rng.choice(['', '', '-', '+'])
+                ip = ''.join(rng.choice('0123456789') for _ in range(rng.randint(0, 4)))
+                fp = rng.choice(['', '', '.', '.' + ''.join(rng.choice('0123456789') for _ in range(rng.randint(0, 3)))])
+                ex = rng.choice(['', '', 'e', 'E', '*^', '*10^'])
+                if ex:
+                    ex += rng.choice(['', '', '-', '+']) + ''.join(rng.choice('0123456789') for _ in range(rng.randint(0, 3)))
+                txt = sign + ip + fp + ex
+                if rng.random() < 0.2 and txt:
+                    j = rng.randrange(len(txt) + 1)
+                    txt = txt[:j] + rng.choice([' ', 'e', '.', '-', '_', 'x', '*^', '*10^', '甲', 'i', '0x']) + txt[j:]
+            extra = [S([0x31])] if rng.random() < 0.05 else []
+            out.append('tonum %s %s' % (cps([ord(c) for c in txt]), ' '.join(extra)))
+        elif w == 'slice':
+            # C14's own stream covers the index pairs; here: ill-typed and miscounted arguments
+            args = rng.choice([[], ['n3ff0000000000000'], [S([0x31]), 'n3ff0000000000000'], ['n3ff0000000000000', 'z'],
+                               ['n3ff0000000000000', 'n4000000000000000', 'n4000000000000000'], ['n3ff0000000000000', 'n4000000000000000'],
+                               ['nnan', 'n7ff0000000000000'], ['nfff0000000000000', 'n43e0000000000000']])
+            out.append('slice %s %s' % (cps(t), ' '.join(args)))
+        else:
+            args = rng.choice([[], [bad_arg()], [S(piece(t)), S([])], [S(piece(t))], [S([])]])
+            out.append('split %s %s' % (cps(t), ' '.join(args)))
+    return [c.rstrip() for c in out]
+
+
+def run_methods(ctx):
+    rng = ctx.rng
+    # the tables first: the caseless ranges and the white-space set of the model (and the spec's set) against Go's unicode package
+    ranges = ctx.run_lean(['unitab ranges'], parallel=False)[0].split(' ')
+    if ranges[0] != 'ok' or len(ranges) < 2:
+        raise RuntimeError('driver: unitab ranges -> %r' % ranges)
+    tab = ['unitab caseless %s %s' % tuple(x.split('-')) for x in ranges[1:]]
+    for c, g in zip(tab, ctx.run_go(tab, timeout_ms=20000)):
+        ctx.evaluations += 1
+        ctx.nontriv(c)
+        if g != 'ok':
+            ctx.disagreement('unicode-tables', c, g, 'ok (the model treats every code point of the range as caseless)')
+    g = ctx.run_go(['unitab spaces'], timeout_ms=20000)[0]
+    m = ctx.run_lean(['unitab spaces'], parallel=False)[0].split(' ')
+    ctx.evaluations += 1
+    if len(m) != 3 or 'ok ' + m[1] != g:
+        ctx.disagreement('unicode-tables', 'unitab spaces', g, ' '.join(m[:2]))
+    if len(m) == 3 and 'ok ' + m[2] != g:
+        ctx.violation('unicode-tables', 'unitab spaces', g, 'ok ' + m[2])
+    ctx.streams.append({'stream': 'unicode-tables', 'cases': len(tab) + 1})
+
+    base = tm_cases(rng, ctx.n(3500, 90000))
+    cases = ['tm ' + c for c in base] + ['tmrun ' + c for c in rng.sample(base, min(len(base), ctx.n(500, 9000)))]
+    go, model, spec = three(ctx, cases)
+    n_unmod = n_unspec = 0
+    for c, g, m, s in zip(cases, go, model, spec):
+        ctx.evaluations += 1
+        f = c.split(' ')
+        stream = 'text-methods' if f[0] == 'tm' else 'text-methods-run'
+        if m == 'unmodelled':
+            n_unmod += 1
+        elif g != m:
+            ctx.disagreement(stream, c, g, m)
+        if s == 'unspecified':
+            n_unspec += 1
+        elif canon_tm(g) != s:
+            ctx.violation(stream, c, g, s)
+        ctx.count('tm_' + f[1] + ('_err' if g.startswith('err') else ''))
+        if m != 'unmodelled' and s != 'unspecified' and f[2] != '-':
+            ctx.nontriv(c)
+    ctx.count('tm_model_unmodelled', n_unmod)
+    ctx.count('tm_spec_unspecified', n_unspec)
+    k = len(base) // 2
+    ctx.sample({'op': cases[k], 'go': go[k], 'model': model[k], 'spec': spec[k]})
+    ctx.streams.append({'stream': 'text-methods', 'cases': len(cases), 'model_unmodelled': n_unmod, 'spec_unspecified': n_unspec})
+
+
 def judge_fmt(ctx, stream, case, args, g, m, s):
     """returns (model_ok, spec_ok) after recording"""
     ctx.evaluations += 1
@@ -658,8 +865,18 @@ def shrink_fmt(ctx):
     ctx.notes.append('first fmt violation shrunk to: ' + ctx.violations[idx][1][:300])
 
 
+def run_textprog(ctx):
+    """whole programs over the text members, three-way through the evaluator model and the spec semantics (progs.text_program)"""
+    from props import progs
+    g = progs.G(ctx.rng)
+    ps = [g.text_program(ctx.rng.randint(2, 9)) for _ in range(ctx.n(700, 20000))]
+    progs.run_stream(ctx, 'textprog', ps, nontrivial=lambda src, go: '以' in src or '之' in src)
+
+
 def run(ctx):
     run_text(ctx)
+    run_methods(ctx)
+    run_textprog(ctx)
     run_fmt(ctx)
     run_mod(ctx)
     if ctx.violations:
@@ -671,6 +888,9 @@ def run(ctx):
 def replay(ctx, data):
     case = data['case']
     f = case.split(' ')
+    if f[0] == 'run':
+        from props import progs
+        return progs.replay(ctx, data)
     g = ctx.run_go([case])[0]
     m = ctx.run_lean([case])[0]
     s = ctx.run_lean(['spec:' + case])[0]
